@@ -45,6 +45,9 @@ pub struct FileSpec {
     /// CRLF line endings in this file
     #[serde(default)]
     pub crlf: bool,
+    /// the last line has no line terminator
+    #[serde(default)]
+    pub no_final_newline: bool,
 }
 
 #[derive(Serialize, Deserialize, Clone, Debug, PartialEq)]
@@ -122,6 +125,15 @@ fn render_line(case: &Case, file: usize, l: &Line, base: &Path) -> Vec<String> {
 }
 
 fn file_text(case: &Case, file: usize, base: &Path) -> String {
+    let text = file_text_full(case, file, base);
+    if case.files[file].no_final_newline {
+        text.trim_end_matches(|c| c == '\n' || c == '\r').to_string()
+    } else {
+        text
+    }
+}
+
+fn file_text_full(case: &Case, file: usize, base: &Path) -> String {
     let mut out = String::new();
     for l in &case.files[file].lines {
         for pl in render_line(case, file, l, base) {
@@ -433,7 +445,8 @@ fn canon_loose(p: &str) -> String {
 pub struct C14;
 
 fn gen_case(rng: &mut Rng) -> Case {
-    let n_files = 1 + rng.usize(5);
+    let max_files = if rng.chance(1, 10) { 7 } else { 5 };
+    let n_files = 1 + rng.usize(max_files);
     let mut paths: Vec<&str> = PATHS[1..].to_vec();
     rng.shuffle(&mut paths);
     let mut files: Vec<FileSpec> = vec![];
@@ -468,11 +481,12 @@ fn gen_case(rng: &mut Rng) -> Case {
                 _ => {
                     // include later files only (acyclic), depth <= 4, fan-out <= 3
                     let later: Vec<usize> = (i + 1..n_files).collect();
-                    if later.is_empty() || depth[i] >= 4 {
+                    if later.is_empty() || depth[i] >= 6 {
                         emit_id += 1;
                         Line::Emit(format!("e{}", emit_id))
                     } else {
-                        let fan = 1 + rng.usize(3.min(later.len()));
+                        // one directive in twenty lists many files (the same ones repeatedly when few exist)
+                        let fan = if rng.chance(1, 20) { 8 + rng.usize(6) } else { 1 + rng.usize(3.min(later.len())) };
                         let refs: Vec<IncRef> = (0..fan)
                             .map(|_| {
                                 let f = *rng.pick(&later);
@@ -488,7 +502,9 @@ fn gen_case(rng: &mut Rng) -> Case {
             lines.push(l);
         }
         let _ = included_here;
-        files.push(FileSpec { path, lines, crlf: rng.chance(1, 10) });
+        // (a file whose last line is blank cannot drop its terminator without losing that line)
+        let ends_blank = matches!(lines.last(), Some(Line::Blank));
+        files.push(FileSpec { path, lines, crlf: rng.chance(1, 10), no_final_newline: !ends_blank && rng.chance(1, 8) });
     }
     // make sure the root includes something when there are other files
     if n_files > 1 && !files[0].lines.iter().any(|l| matches!(l, Line::Include(_))) {
